@@ -2,7 +2,7 @@
 # run_all.sh <tier> [ids...]: run the registered checks one after the other in /verif against /repo; prints one line per check
 TIER=${1:-quick}; shift
 IDS=${@:-C01 C02 C03 C04 C05 C06 C07 C08 C09 C10 C11 C12 C13 C14 C15 C16 C17 C18 C19 C20}
-cd /verif
+cd "$(dirname "$0")/.."
 for id in $IDS; do
   s=$(date +%s)
   python3-vt tools/check.py $id $TIER > /tmp/runall_$id.out 2>&1; rc=$?
